@@ -206,6 +206,17 @@ C20_OK == g.viol = {}
 (* the accounting behind the property, on the model's own state *)
 Accounting == st.unf = Len(st.items) + Cardinality({c \in Cons : st.tk[c].st = "pend" /\ st.tk[c].pc = "body"})
 FinishedFlag == st.fin <=> (st.unf = 0)
+(* the reachable states satisfy the invariant that Apalache proves inductive for any number of items/consumers/joiners
+   (spec/QueueAccounting.tla), under this refinement mapping *)
+QA == INSTANCE QueueAccounting WITH
+        queued  <- Len(st.items),
+        inblock <- Cardinality({c \in Cons : st.tk[c].st = "pend" /\ st.tk[c].pc = "body"}),
+        unf     <- st.unf,
+        fin     <- st.fin,
+        gwait   <- Cardinality({c \in Cons : st.tk[c].st = "pend" /\ st.tk[c].pc = "get" /\ st.tk[c].fst = "pend"}),
+        gwoken  <- Cardinality({c \in Cons : st.tk[c].st = "pend" /\ st.tk[c].pc = "get" /\ st.tk[c].fst = "res"}),
+        jwait   <- Cardinality({j \in Joins : st.tk[j].st = "pend" /\ st.tk[j].pc = "wait" /\ st.tk[j].fst = "pend"})
+RefinesQueueAccounting == QA!IndInv /\ QA!JoinExact
 Leaf == Len(st.ready) = 0 /\ (st.budget = 0 \/ Ops(st) = {})
 PrintLeaf == Leaf => PrintT("SCHED" \o ToJson([hist |-> hist]))
 =============================================================================
